@@ -153,7 +153,9 @@ def runOne (payload : String) : String :=
     let iso := kvOf cfg "iso" == "1"
     let tr := kvOf cfg "tr"
     let fm := kvOf cfg "fm"
-    let loc := kvOf cfg "loc"
+    -- `loc=a+b+c` is the bundle's locale chain; formatters and plural rules are bound to the FIRST locale only
+    let chain := (kvOf cfg "loc").splitOn "+"
+    let loc := chain.headD ""
     -- locales whose language the plural model knows (others fall back to `en` in the crate's negotiation,
     -- which the model also does, but only the listed ones are validated)
     if !(["en", "en-US", "pl", "ru", "ar", "fr", "cs", "lt", "ja", "pl-PL", "fr-CA", "xx", "pt", "pt-PT", "pt-BR", "pt-AO", "de", "uk", "sl", "cy", "ro", "sv"].contains loc) then "unsupported" else
